@@ -18,6 +18,8 @@ BOUNDS = [
     [{'k': 'scalar', 'v': 16}, {'k': 'range', 'lo': -5, 'step': 4, 'n': 9}],
     [{'k': 'range', 'lo': 3, 'step': 8, 'n': 3}, {'k': 'scalar', 'v': 0}],
     [{'k': 'range', 'lo': 67, 'step': 8, 'n': 2}, {'k': 'range', 'lo': 1, 'step': 8, 'n': 2}],
+    [{'k': 'scalar', 'v': 13}, {'k': 'range', 'lo': 1, 'step': 8, 'n': 4}],
+    [{'k': 'range', 'lo': -7, 'step': 8, 'n': 5}, {'k': 'scalar', 'v': -5}],
 ]
 
 
